@@ -5,52 +5,101 @@
 (* so earlier requests are the "history" (cache contents) of later ones.   *)
 EXTENDS Pipeline, Json
 
-CONSTANTS ExtChoice,   \* which extension lists: "one" | "small" | "full"
-          ReqChoice    \* which request alphabet: "sched3" | "sched" | "small" | "full"
+CONSTANTS ExtChoice,   \* which extension lists: "one" | "small" | "full" | "gates"
+          ReqChoice,   \* which request alphabet: "sched3" | "sched" | "small" | "smallpan" | "full" | "gates"
+          TrChoice     \* which transports: "direct" | "all"
 
 All  == [pm |-> TRUE,  cm |-> TRUE,  oi |-> TRUE,  ri |-> TRUE,  rf |-> TRUE,  fi |-> TRUE]
 Icpt == [pm |-> FALSE, cm |-> FALSE, oi |-> TRUE,  ri |-> TRUE,  rf |-> TRUE,  fi |-> TRUE]
 Muts == [pm |-> TRUE,  cm |-> TRUE,  oi |-> FALSE, ri |-> FALSE, rf |-> FALSE, fi |-> FALSE]
 FiO  == [pm |-> FALSE, cm |-> FALSE, oi |-> FALSE, ri |-> FALSE, rf |-> FALSE, fi |-> TRUE]
 Mix  == [pm |-> TRUE,  cm |-> FALSE, oi |-> TRUE,  ri |-> TRUE,  rf |-> FALSE, fi |-> FALSE]
+PMo  == [pm |-> TRUE,  cm |-> FALSE, oi |-> FALSE, ri |-> FALSE, rf |-> FALSE, fi |-> FALSE]  \* a bare parameter gate (APQ)
+CMo  == [pm |-> FALSE, cm |-> TRUE,  oi |-> FALSE, ri |-> FALSE, rf |-> FALSE, fi |-> FALSE]  \* a bare context gate (complexity limit)
 
 ExtLists ==
   IF ExtChoice = "one" THEN {<<All>>}
   ELSE IF ExtChoice = "small" THEN {<<All>>, <<Icpt, Muts>>}
+  ELSE IF ExtChoice = "gates" THEN {<<All, All>>, <<Mix, Muts, Icpt>>, <<PMo, CMo, Icpt>>}
   ELSE {<<>>, <<All, All>>, <<Icpt, Muts>>, <<All, FiO, Mix>>, <<Mix, Muts, Icpt>>}
 
 Caches == {[ck |-> "none", cn |-> 0], [ck |-> "map", cn |-> 0], [ck |-> "lru", cn |-> 1], [ck |-> "lru", cn |-> 2]}
 
-Cfgs == {[exts |-> e, ck |-> c.ck, cn |-> c.cn, sugg |-> s] : e \in ExtLists, c \in Caches, s \in BOOLEAN}
+Trs == IF TrChoice = "all" THEN Transports ELSE {"direct"}
+
+\* (the gate sweep is a single-request model: one cache kind, suggestions as configured by default)
+Cfgs == IF ReqChoice = "gates"
+        THEN {[exts |-> e, ck |-> "map", cn |-> 0, sugg |-> FALSE, tr |-> t] : e \in ExtLists, t \in Trs}
+        ELSE {[exts |-> e, ck |-> c.ck, cn |-> c.cn, sugg |-> s, tr |-> t] : e \in ExtLists, c \in Caches, s \in BOOLEAN, t \in Trs}
 
 R1 == <<[f |-> "a", sub |-> <<"a.b">>]>>
 R2 == <<[f |-> "c", sub |-> <<>>]>>
-NoRej == [k |-> "none", i |-> 0]
-P(q, cls, opsel, vs, rej, rounds, roots) ==
-  [q |-> q, cls |-> cls, opsel |-> opsel, vcls |-> vs, rej |-> rej, rounds |-> rounds, roots |-> roots]
+NoG == <<>>
+P(q, cls, opsel, vs, opt, gates, rounds, roots) ==
+  [q |-> q, cls |-> cls, opsel |-> opsel, vcls |-> vs, opt |-> opt, gates |-> gates, rounds |-> rounds, roots |-> roots]
+
+\* how often the transport calls the response handler: the request/response
+\* transports once; the streaming ones until it returns nil
+Streaming(tr) == tr \in {"sse", "mixed", "ws"}
+One(tr)  == IF Streaming(tr) THEN <<"data", "nil">> ELSE <<"data">>
+SubR(tr) == IF tr \in {"post", "get", "form"} THEN <<"data">> ELSE <<"data", "data", "nil">>
+
+\* gate plans: which mutator gates do not pass, and how.  GatePos in pipeline order.
+GatePos(exts) == {g \in [k : {"pm", "cm"}, i : 1..Len(exts)] : exts[g.i][g.k]}
+Before(g1, g2) == (g1.k = "pm" /\ g2.k = "cm") \/ (g1.k = g2.k /\ g1.i < g2.i)
+G(g, o) == [k |-> g.k, i |-> g.i, o |-> o]
+Singles(exts) == {<<G(g, o)>> : g \in GatePos(exts), o \in {"rej", "pan"}}
+Pairs(exts, outs) ==
+  {<<G(gg[1], oo[1]), G(gg[2], oo[2])>> : gg \in {x \in GatePos(exts) \X GatePos(exts) : Before(x[1], x[2])}, oo \in outs}
+\* one or two gates that do not pass, at least one of them panicking ... and the plain rejections
+Plans(exts) == {NoG} \cup Singles(exts) \cup Pairs(exts, {<<"pan", "pan">>, <<"rej", "pan">>, <<"pan", "rej">>})
+
+\* the request classes of the property statement (no gate plan)
+Classes(tr, g) ==
+  { P("Q1", "ok",   "found",    "good", "query", g, One(tr), R1),   \* valid
+    P("Q2", "ok",   "found",    "good", "query", g, One(tr), R2),   \* multi-operation document, operation named
+    P("Q1", "ok",   "notfound", "good", "query", g, One(tr), R1),   \* operation not found (same text as the valid one)
+    P("Q1", "ok",   "found",    "bad",  "query", g, One(tr), R1),   \* bad variable (same text as the valid one)
+    P("QU", "unk",  "found",    "good", "query", g, One(tr), R2),   \* unknown field
+    P("QP", "perr", "found",    "good", "query", g, One(tr), <<>>), \* parse error
+    P("QN", "noop", "found",    "good", "query", g, One(tr), <<>>), \* no operation
+    P("QI", "inv",  "found",    "good", "query", g, One(tr), R2),   \* fails another rule
+    P("QV", "vpan", "found",    "good", "query", g, One(tr), R2),   \* a validation rule panics on it
+    P("QM", "ok",   "found",    "good", "mutation", g, One(tr), R2),      \* mutation (GET dispatches queries only)
+    P("QS", "ok",   "found",    "good", "subscription", g, SubR(tr), R2) }  \* subscription: two events, then end
 
 \* the request alphabet of the property statement
 Alphabet(exts) ==
-  LET core == { P("Q1", "ok",   "found",    "good", NoRej, <<"data">>, R1),   \* valid
-                P("Q2", "ok",   "found",    "good", NoRej, <<"data">>, R2),   \* multi-operation document, operation named
-                P("Q1", "ok",   "notfound", "good", NoRej, <<"data">>, R1),   \* operation not found (same text as the valid one)
-                P("Q1", "ok",   "found",    "bad",  NoRej, <<"data">>, R1),   \* bad variable (same text as the valid one)
-                P("QU", "unk",  "found",    "good", NoRej, <<"data">>, R2),   \* unknown field
-                P("QP", "perr", "found",    "good", NoRej, <<"data">>, <<>>) }  \* parse error
-      more == { P("QN", "noop", "found",    "good", NoRej, <<"data">>, <<>>),  \* no operation
-                P("QI", "inv",  "found",    "good", NoRej, <<"data">>, R2),    \* fails another rule
-                P("QS", "ok",   "found",    "good", NoRej, <<"data", "nil">>, R2) }  \* subscription: one event, then end
-      rejs == { P("Q1", "ok", "found", "good", [k |-> h, i |-> i], <<"data">>, R1) :
-                  h \in {"pm", "cm"}, i \in {j \in 1..Len(exts) : exts[j]["pm"] \/ exts[j]["cm"]} }
-      few  == { P("Q1", "ok",  "found",    "good", NoRej, <<"data">>, R1),
-                P("Q2", "ok",  "found",    "good", NoRej, <<"data">>, R2),
-                P("Q1", "ok",  "notfound", "good", NoRej, <<"data">>, R1),
-                P("QU", "unk", "found",    "good", NoRej, <<"data">>, R2) }
-      inv  == { P("QI", "inv", "found", "good", NoRej, <<"data">>, R2) }   \* fails a validation rule other than field existence
+  LET tr   == cfg.tr
+      core == { P("Q1", "ok",   "found",    "good", "query", NoG, One(tr), R1),   \* valid
+                P("Q2", "ok",   "found",    "good", "query", NoG, One(tr), R2),   \* multi-operation document, operation named
+                P("Q1", "ok",   "notfound", "good", "query", NoG, One(tr), R1),   \* operation not found (same text as the valid one)
+                P("Q1", "ok",   "found",    "bad",  "query", NoG, One(tr), R1),   \* bad variable (same text as the valid one)
+                P("QU", "unk",  "found",    "good", "query", NoG, One(tr), R2),   \* unknown field
+                P("QP", "perr", "found",    "good", "query", NoG, One(tr), <<>>) }  \* parse error
+      more == { P("QN", "noop", "found",    "good", "query", NoG, One(tr), <<>>),  \* no operation
+                P("QI", "inv",  "found",    "good", "query", NoG, One(tr), R2),    \* fails another rule
+                P("QV", "vpan", "found",    "good", "query", NoG, One(tr), R2),    \* a validation rule panics on it
+                P("QS", "ok",   "found",    "good", "subscription", NoG, SubR(tr), R2) }  \* subscription: two events, then end
+      \* the valid request with one gate (every position) rejecting / panicking
+      \* (two failing gates: the single-request gate sweep, ReqChoice "gates")
+      gated == { P("Q1", "ok", "found", "good", "query", g, One(tr), R1) : g \in Singles(exts) }
+      \* the first parameter gate / the first context gate panics
+      pan1 == { P("Q1", "ok", "found", "good", "query", <<G(g, "pan")>>, One(tr), R1) :
+                   g \in {x \in GatePos(exts) : \A y \in GatePos(exts) : y.k = x.k => y.i >= x.i} }
+      few  == { P("Q1", "ok",  "found",    "good", "query", NoG, One(tr), R1),
+                P("Q2", "ok",  "found",    "good", "query", NoG, One(tr), R2),
+                P("Q1", "ok",  "notfound", "good", "query", NoG, One(tr), R1),
+                P("QU", "unk", "found",    "good", "query", NoG, One(tr), R2) }
+      inv  == { P("QI", "inv", "found", "good", "query", NoG, One(tr), R2) }   \* fails a validation rule other than field existence
   IN  IF ReqChoice = "small" THEN core
+      ELSE IF ReqChoice = "smallpan" THEN core \cup pan1
       ELSE IF ReqChoice = "sched" THEN core \cup inv
       ELSE IF ReqChoice = "sched3" THEN few
-      ELSE core \cup more \cup rejs
+      ELSE IF ReqChoice = "gates" THEN UNION {Classes(tr, g) : g \in Plans(exts)}
+      \* (with the configuration-time swap the suggestion setting only selects the
+      \* rule flavour: the gate plans are explored with suggestions enabled)
+      ELSE core \cup more \cup (IF cfg.sugg THEN {} ELSE gated)
 
 MCInit ==
   \E c \in Cfgs :
@@ -70,7 +119,7 @@ AllOver == \A r \in Reqs : pc[r] \in {"done", "panicked"}
 
 MCNext ==
   \/ \E r \in Reqs :
-       \/ \E p \in Alphabet(cfg.exts) : Start(r, p)
+       \/ (pc[r] = "idle" /\ \E p \in Alphabet(cfg.exts) : Start(r, p))
        \/ Emit(r) \/ CacheGet(r) \/ RuleStep(r) \/ Validate(r) \/ CacheAdd(r)
   \/ (AllOver /\ UNCHANGED vars)
 
@@ -87,5 +136,17 @@ Export ==
   THEN PrintT(ToJson([ck |-> cfg.ck, cn |-> cfg.cn, sugg |-> cfg.sugg, glog |-> glog,
                       reqs |-> [r \in Reqs |-> [q |-> rq[r].q, cls |-> rq[r].cls, opsel |-> rq[r].opsel,
                                                 vcls |-> rq[r].vcls, last |-> LastD(log[r])]]]))
+  ELSE TRUE
+
+\* gate sweep export (replay over the real transports): one line per
+\* (configuration, request) with the fate and the complete event word the
+\* model prescribes and the cache operations it performs
+One1 == CHOOSE r \in Reqs : TRUE
+ExportGates ==
+  IF AllOver
+  THEN PrintT(ToJson([exts |-> cfg.exts, ck |-> cfg.ck, cn |-> cfg.cn, tr |-> cfg.tr,
+                      req  |-> rq[One1],
+                      fate |-> Fate(cfg.exts, cfg.tr, rq[One1]),
+                      log  |-> log[One1], glog |-> glog]))
   ELSE TRUE
 =============================================================================
